@@ -17,9 +17,13 @@ import (
 	"sort"
 	"strings"
 
+	"sync/atomic"
+
 	"github.com/go-openapi/loads"
 
 	"verif/engine/apib"
+	"verif/engine/enum"
+	"verif/engine/report"
 )
 
 // Multi is a description with two operations.
@@ -195,26 +199,28 @@ func seqLists(thorough bool) [][]string {
 	return ls
 }
 
+// seqWorlds: unordered pairs of lists (the two operations are symmetric up to their names, and the
+// step alphabet addresses both in both orders) x operationId mode x layout x API default.
 func seqWorlds(thorough bool) []Multi {
 	var out []Multi
 	layouts := []string{"paths"}
-	regs := []string{"all"}
 	if thorough {
 		layouts = append(layouts, "methods")
 	}
 	ls := seqLists(thorough)
-	for _, l0 := range ls {
-		for _, l1 := range ls {
+	for i0, l0 := range ls {
+		for _, l1 := range ls[i0:] {
 			for _, idm := range []string{"none", "same", "unique"} {
 				for _, lay := range layouts {
+					if lay == "methods" && idm == "unique" {
+						continue // the second layout only where the operations can collide by id
+					}
 					for _, d := range []string{"application/json", ""} {
-						for _, reg := range regs {
-							a := append([]string{}, l0...)
-							b := append([]string{}, l1...)
-							sort.Strings(a)
-							sort.Strings(b)
-							out = append(out, Multi{Lists: [2][]string{a, b}, IDMode: idm, Layout: lay, Default: d, Reg: reg})
-						}
+						a := append([]string{}, l0...)
+						b := append([]string{}, l1...)
+						sort.Strings(a)
+						sort.Strings(b)
+						out = append(out, Multi{Lists: [2][]string{a, b}, IDMode: idm, Layout: lay, Default: d, Reg: "all"})
 					}
 				}
 			}
@@ -225,25 +231,17 @@ func seqWorlds(thorough bool) []Multi {
 
 func valid(v, mt string) Header { return Header{Lines: []string{v}, Kind: "valid", MTs: []string{mt}} }
 
-// seqHeaders: media types chosen to collide over the list universe: each is admitted by
-// some lists and not by others (text/plain, text/csv: exact or text/*; application/json: exact,
-// default; application/octet-stream: only */*), plus one spelled variant, one malformed, absent.
-func seqHeaders(wide bool) []Header {
-	hs := []Header{
-		valid("text/plain", "text/plain"),
-		valid("text/csv", "text/csv"),
-		valid("application/json", "application/json"),
-		valid("application/octet-stream", "application/octet-stream"),
-	}
-	if wide {
-		hs = append(hs,
-			valid("TEXT/PLAIN; charset=utf-8", "text/plain"),
-			Header{Lines: []string{"a/b/c"}, Kind: "malformed"},
-			Header{Lines: nil, Kind: "absent"},
-		)
-	}
-	return hs
-}
+// Media types chosen to collide over the list universe: each is admitted by some lists and not by
+// others (text/plain, text/csv: exact or text/*; application/json: exact or API default;
+// application/octet-stream: only */*).
+var (
+	hdrCore  = []Header{valid("text/plain", "text/plain"), valid("text/csv", "text/csv"), valid("application/json", "application/json"), valid("application/octet-stream", "application/octet-stream")}
+	hdrSmall = []Header{valid("text/plain", "text/plain"), valid("application/json", "application/json")}
+	hdrWide  = append(append([]Header{}, hdrCore...),
+		valid("TEXT/PLAIN; charset=utf-8", "text/plain"),
+		Header{Lines: []string{"a/b/c"}, Kind: "malformed"},
+		Header{Lines: nil, Kind: "absent"})
+)
 
 func seqSteps(hs []Header, bodies []string) []Step {
 	var out []Step
@@ -257,4 +255,163 @@ func seqSteps(hs []Header, bodies []string) []Step {
 		}
 	}
 	return out
+}
+
+func hdrNames(hs []Header) []string {
+	var out []string
+	for _, h := range hs {
+		out = append(out, fmt.Sprintf("%s:%q", h.Kind, h.Lines))
+	}
+	return out
+}
+
+// seqPhase enumerates, per description:
+//
+//	exact: every ordered pair (thorough: also every ordered triple over a smaller alphabet) of steps,
+//	       each sequence on its own fresh instance;
+//	walk:  for every first step of the wide alphabet, one fresh instance serves that step and then every
+//	       step of the wide alphabet in order (a long history: every ordered pair occurs as a subsequence).
+func seqPhase(r *report.R, thorough bool, stop func() bool) {
+	worlds := seqWorlds(thorough)
+	exact2 := seqSteps(hdrCore, []string{"cl2"})
+	var exact3 []Step
+	walkBodies := []string{"cl2"}
+	if thorough {
+		exact2 = append(exact2, seqSteps([]Header{hdrWide[4], hdrWide[5], hdrWide[6]}, []string{"cl2"})...)
+		exact3 = seqSteps(hdrSmall, []string{"cl2"})
+		walkBodies = []string{"cl2", "chunked1", "none"}
+	}
+	walk := seqSteps(hdrWide, walkBodies)
+	if !thorough {
+		walk = append(walk, seqSteps([]Header{hdrCore[0]}, []string{"none"})...)
+	}
+
+	r.Set("seq_descriptions", len(worlds))
+	r.Set("seq_axis_lists", seqLists(thorough))
+	r.Set("seq_axis_id_mode", []string{"none: no operationId member on either operation", "same: both operations carry operationId dup", "unique"})
+	r.Set("seq_axis_layout", map[bool][]string{false: {"POST /a + POST /b"}, true: {"POST /a + POST /b", "POST /a + PUT /a"}}[thorough])
+	r.Set("seq_axis_default", []string{"application/json", "none"})
+	r.Set("seq_exact_pairs", fmt.Sprintf("%d steps (2 operations x 2 entry points x headers/bodies) -> all %d ordered pairs, each on its own fresh instance", len(exact2), len(exact2)*len(exact2)))
+	if thorough {
+		r.Set("seq_exact_triples", fmt.Sprintf("%d steps (2 operations x 2 entry points x %v, body cl2) -> all %d ordered triples, each on its own fresh instance", len(exact3), hdrNames(hdrSmall), len(exact3)*len(exact3)*len(exact3)))
+	}
+	r.Set("seq_walks", fmt.Sprintf("%d steps (2 operations x 2 entry points x %d headers x bodies %v; quick adds text/plain without body): for each first step one instance serves it and then all %d steps in order", len(walk), len(hdrWide), walkBodies, len(walk)))
+	r.Set("seq_headers", hdrNames(hdrWide))
+
+	var seqDone atomic.Int64
+	enum.Parallel(len(worlds), stop, func(wi int) {
+		wi = (wi + seedMod(r.Seed, len(worlds))) % len(worlds)
+		w := newWorld(worlds[wi])
+		var evals, nontrivial int64
+		outcomes := map[string]int64{}
+		carries := func(s Step) bool { return bodyModes[s.Body].carries != "no" }
+		fail := func(fs []failure, steps []Step) {
+			sc := SeqCase{Multi: w.m, Steps: append([]Step(nil), steps...)}
+			for _, f := range fs {
+				r.Fail(f.class, f.what, sc)
+			}
+		}
+		aloneOf := func(steps []Step) []obs {
+			alone := make([]obs, len(steps))
+			for i, s := range steps {
+				alone[i] = w.run(w.fresh(), s)
+				evals++
+				// a single request to a description with two operations is judged like any other
+				if ok, c, exps := w.modelOK(s, alone[i]); !ok {
+					fail([]failure{{classify(c, alone[i], exps), fmt.Sprintf("alone on a fresh instance (operation %d): %s", s.Op, alone[i])}}, []Step{s})
+				}
+			}
+			return alone
+		}
+		exact := func(steps []Step, n int) {
+			alone := aloneOf(steps)
+			idx := make([]int, n)
+			seq := make([]Step, n)
+			al := make([]obs, n)
+			for {
+				nb := 0
+				for k, i := range idx {
+					seq[k], al[k] = steps[i], alone[i]
+					if carries(steps[i]) {
+						nb++
+					}
+				}
+				fs, seen := w.checkSeq(seq, al)
+				evals += int64(n)
+				if nb >= 2 {
+					nontrivial++
+				}
+				outcomes[fmt.Sprintf("seq%d-last-step/%s", n, outcomeLabel(seen[n-1], bodyModes[seq[n-1].Body].carries))]++
+				if len(fs) > 0 {
+					fail(fs, seq)
+				} else if nb >= 2 && (idx[0]*31+idx[n-1]*7+wi)%1021 == seedMod(r.Seed, 1021) && r.WantSample() {
+					r.Sample(map[string]any{"sequence": SeqCase{Multi: w.m, Steps: append([]Step(nil), seq...)}, "observed": append([]obs(nil), seen...)})
+				}
+				k := n - 1
+				for k >= 0 {
+					idx[k]++
+					if idx[k] < len(steps) {
+						break
+					}
+					idx[k] = 0
+					k--
+				}
+				if k < 0 {
+					return
+				}
+			}
+		}
+		exact(exact2, 2)
+		if len(exact3) > 0 {
+			exact(exact3, 3)
+		}
+		// walks
+		alone := aloneOf(walk)
+		for i, first := range walk {
+			e := w.fresh()
+			hist := []Step{first}
+			o := w.run(e, first)
+			evals++
+			if !sameObs(o, alone[i]) {
+				fail([]failure{{"history-dependent", fmt.Sprintf("first request on a fresh instance: %s; the same on another fresh instance: %s", o, alone[i])}}, hist)
+			}
+			nb := 0
+			if carries(first) {
+				nb++
+			}
+			for j, s := range walk {
+				o := w.run(e, s)
+				evals++
+				hist = append(hist, s)
+				if carries(s) {
+					nb++
+				}
+				ok, c, exps := w.modelOK(s, o)
+				if ok && sameObs(o, alone[j]) {
+					continue
+				}
+				// smallest replayable form: the pair on a fresh instance if that already fails, else the whole history
+				if fs, _ := w.checkSeq([]Step{first, s}, []obs{alone[i], alone[j]}); len(fs) > 0 {
+					fail(fs, []Step{first, s})
+					continue
+				}
+				cl := "history-dependent"
+				if !ok {
+					cl = "after-history/" + classify(c, o, exps)
+				}
+				fail([]failure{{cl, fmt.Sprintf("request %d of a history on one instance (operation %d): %s; alone on a fresh instance: %s", len(hist), s.Op, o, alone[j])}}, hist)
+			}
+			outcomes["walk/completed"]++
+			if nb >= 2 {
+				nontrivial++
+			}
+		}
+		seqDone.Add(1)
+		r.Eval(evals)
+		r.Nontrivial(nontrivial)
+		for k, v := range outcomes {
+			r.Outcome(k, v)
+		}
+	})
+	r.Set("seq_descriptions_completed", seqDone.Load())
 }
